@@ -17,6 +17,7 @@ func init() {
 			"R1 in every write entry point (Write, Write1, Writev, CtxWrite1, CtxWritev, ReadFrom, Writer().Write) every path to an enqueue, a transport write, a pipeline write event or a success return first passes the open side of a test of the closed FLAG (Load(closed)==0 / IsActive), and a loop re-tests before every further write; a test of the stored close error is not a closed-state test (Close(nil) leaves it nil); " +
 			"R2 the closed side of that test returns, without any write event, an error that is provably non-nil (sentinel, fresh error, or a value guarded by a nil test); " +
 			"R3 every select state of the enqueueing functions that did not enqueue returns a provably non-nil error: the channel-context state through the closed-error helper, the caller-context state through Err() of that same context, the default arm through the queue-full sentinel. " +
+			"ALSO: HandlerContext.Close closes synchronously; Flush failures are reported; ReadFrom's failed-write exit returns the write's error (imports listed in RULES.md). " +
 			"DOES NOT DECIDE: writes overlapping a Close that has not returned; what the transport does after its own Close.",
 		Assumptions: []string{"C05: the closed flag is set before any Close call returns", "context.Context.Err() is non-nil once Done() is closed"},
 		Run:         runC11,
